@@ -1926,8 +1926,8 @@ m("C12", "handled-frames-kept", C,
 ''', "")
 m("C05", "onerror-scope-not-restored", C,
   '''                body=(scope_restore +
-                      error_assignment +''',
-  '''                body=(error_assignment +''')
+                      error_backup +''',
+  '''                body=(error_backup +''')
 m("C05", "onerror-scope-restored-without-globals", C,
   '''            scope=scope, DICT=Builtin("dict")
         ) + self._merge_changed_globals(snapshot)''',
@@ -2493,3 +2493,28 @@ m("C12", "fallback-try-merged", "utils.py",
   """            inst: BaseException = BaseException.__new__(new)
         except TypeError:
             new = cls""")
+
+
+# ---- fix 8981ec6: the on-error handler's 'error' variable is bracketed
+_EV = """        error_backup = list(self._enter_assignment(names))
+        fallback_body = self.visit(node.fallback) + \\
+            list(self._leave_assignment(names))"""
+for _p in ("C13", "C05"):
+    m(_p, "error-variable-generators-dropped", C, _EV,
+      """        error_backup = []
+        self._enter_assignment(names)
+        fallback_body = self.visit(node.fallback)
+        self._leave_assignment(names)""")
+    m(_p, "error-variable-not-restored", C, _EV,
+      """        error_backup = list(self._enter_assignment(names))
+        fallback_body = self.visit(node.fallback)""")
+    m(_p, "error-variable-saved-after-assignment", C,
+      """                      error_backup +
+                      error_assignment +""",
+      """                      error_assignment +
+                      error_backup +""")
+    m(_p, "refactor-error-variable-extend", C, _EV,
+      """        error_backup = [stmt for stmt in self._enter_assignment(names)]
+        fallback_body = self.visit(node.fallback)
+        fallback_body.extend(self._leave_assignment(names))""",
+      expect="silent")
